@@ -73,8 +73,8 @@ CLAIMED = {
             'TLA+ producer/consumer reader machine model-checked by TLC; exhaustive partition x interleaving replay into rbql-js'),
 
     'C13': ('5 C13, 3.11',
-            'TLC computes Ref and its text rendering (Stringify: ints in decimal, None as empty) for type-agnostic queries over rectangular string tables (fields, literals, concatenation, comparisons, star forms, ORDER / DISTINCT / TOP, COUNT + GROUP BY, EXCEPT, UPDATE, joins, failing queries) x header yes/no; every case is run through query (recording iterator/writer), query_table, query_csv (files), python -m rbql from the tree (file->file and stdin->stdout, out-format input / csv / tsv; every k-th case), query_dataframe (pandas) and the sqlite iterator + query_sqlite_to_csv; each result is compared with the TLA+ value (hence with each other); command-line runs are judged by the CliOk monitor of Frontends.tla through TLC (exit 0 and only table data on stdout and only Warning lines on stderr on success; non-zero exit and an Error [type] line on failure).',
-            'Cell strings are CSV-inert (letters, digits), so output text is split on the delimiter without dialect logic in the harness; pandas and sqlite need column names (header cases only); the adapters are exercised by replay, not modelled internally.',
+            'TLC computes Ref and its text rendering (Stringify: ints in decimal, None as empty) for type-agnostic queries over rectangular string tables (fields, literals, concatenation, comparisons, star forms, ORDER / DISTINCT / TOP, COUNT + GROUP BY, EXCEPT, UPDATE, joins, failing queries) x header yes/no; every case is run through query (recording iterator/writer), query_table, query_csv (files), python -m rbql from the tree (file->file and stdin->stdout, out-format input / csv / tsv; every k-th case), query_dataframe (pandas) and the sqlite iterator + query_sqlite_to_csv; each result is compared with the TLA+ value (hence with each other); command-line runs are judged by the CliOk monitor of Frontends.tla through TLC (exit 0 and only table data on stdout and only Warning lines on stderr on success; non-zero exit and an Error [type] line on failure). Also: join cases with both tables sharing their column names (query_table, pandas), pandas with duplicated labels, five environment faults of the command line, and Pipeline.tla - query_csv at the level of text as the composition RefRead ; query ; WriteTable (theorem ReReadable model-checked) over every input text up to the bound x input / output dialects x header, replayed through the real query_csv with different input and output delimiters.',
+            'In the engine families cell strings are CSV-inert (letters, digits), so output text is split on the delimiter without dialect logic in the harness (the text pipeline covers quotes, delimiters, spaces and line breaks in cells for two queries); pandas and sqlite need column names (header cases only); the adapters are exercised by replay, not modelled internally.',
             'TLA+ engine spec + front-end monitors checked by TLC; one TLC-computed expectation replayed through seven entry points; TLC-judged command-line outcomes'),
     'C17': ('5 C17, 3.10',
             'TLC checks Like.tla: a position-set automaton stepping over the text equals the declarative LikeRef for every pattern/text pair of length <= 4 (quick) / <= 5 (thorough) over {%, _, x, y}, with an invariant on every intermediate state set; every pair is instantiated with ordered pairs from 23 characters (all regex metacharacters, quotes, space, non-ASCII, astral) in rotation and evaluated as `select like(a1, a2)` through query_table of rbql-py and rbql-js and through like_to_regex + re; random longer Unicode pairs evaluated by both ports are judged by TLC (LikeTrace).',
